@@ -28,8 +28,8 @@ ASSUMPTIONS = [
     "for mixed-type sequences only the laws are checked, not a particular inferred dtype",
 ]
 BOUND = {
-    "quick": "sequences of length 0..3 over 29 scalars; explicit dtypes for homogeneous sequences; equal() relation over all pairs of vectors of length <= 2 built from 14 scalars",
-    "thorough": "sequences of length 0..4 over 29 scalars; equal() relation over all pairs of vectors of length <= 2 built from all 29 scalars (vectors reported equal must also hold == values position by position)",
+    "quick": "sequences of length 0..3 over 30 scalars; explicit dtypes for homogeneous sequences; equal() relation over all pairs of vectors of length <= 2 built from 14 scalars",
+    "thorough": "sequences of length 0..4 over 30 scalars; equal() relation over all pairs of vectors of length <= 2 built from all 30 scalars (vectors reported equal must also hold == values position by position)",
 }
 TIME_CAP = {"quick": 240, "thorough": 3000}
 
@@ -86,6 +86,7 @@ SCALARS = {
     "np.dt64": np.datetime64("2020-02-29"),
     "np.NaT": np.datetime64("NaT"),
     "np.td64": np.timedelta64(1, "D"),
+    "np.td64ns": np.timedelta64(86400 * 10 ** 9 + 5000, "ns"),   # nanosecond resolution, a whole number of microseconds
     "dict": DICT,
     "inst": INST,
     "aloof": ALOOF,
@@ -96,7 +97,7 @@ FAMILY = {
     "True": "bool", "1": "int", "big": "int", "i24": "int", "1.5": "float", "inf": "float", "complex": "complex", "a": "str", "empty": "str", "long1": "str", "long2": "str",
     "date": "date", "datetime": "datetime", "timedelta": "timedelta", "bytes": "bytes",
     "np.int64": "np.int", "np.float64": "np.float", "np.float32": "np.float32", "np.bool": "np.bool", "np.str": "np.str",
-    "np.dt64": "np.dt64", "np.NaT": "np.dt64", "np.td64": "np.td64", "dict": "object", "inst": "object", "aloof": "object",
+    "np.dt64": "np.dt64", "np.NaT": "np.dt64", "np.td64": "np.td64", "np.td64ns": "np.td64", "dict": "object", "inst": "object", "aloof": "object",
 }
 DATEISH = {"date", "datetime", "np.dt64"}
 EXPLICIT = {
@@ -379,7 +380,7 @@ def excluded(names):
     if "np.NaT" in names and not nonmiss <= DATEISH:
         return True
     # a timedelta64 scalar mixed with numbers: NumPy reinterprets the numbers as durations (not a dataiter decision)
-    if "np.td64" in names and not nonmiss <= {"np.td64", "timedelta"}:
+    if ("np.td64" in names or "np.td64ns" in names) and not nonmiss <= {"np.td64", "timedelta"}:
         return True
     return False
 
@@ -438,7 +439,7 @@ def seq_cases(names):
 def run_equal(tier, rec):
     # np.timedelta64 is left out of the relation pool: Python's own == is not transitive across it
     # (True == np.timedelta64(1, 'D') == timedelta(days=1), but True != timedelta(days=1)), and equal() is defined by ==
-    pool = [x for x in NAMES if x not in ("np.td64", "aloof")] if tier != "quick" else ["None", "nan", "True", "1", "1.5", "a", "empty", "long1", "long2", "date", "datetime", "np.int64", "np.dt64", "inst"]
+    pool = [x for x in NAMES if x not in ("np.td64", "np.td64ns", "aloof")] if tier != "quick" else ["None", "nan", "True", "1", "1.5", "a", "empty", "long1", "long2", "date", "datetime", "np.int64", "np.dt64", "inst"]
     vecs = []
     for n in range(0, 3):
         for names in itertools.product(pool, repeat=n):
